@@ -224,8 +224,11 @@ def EvalOK (E : ErrClass → Prop) (P : Ctx → Prop) (c : SCfg) (n' : Node) (k 
     | .error e => E e
 
 def FragSpec (E : ErrClass → Prop) (P : Ctx → Prop) (cfg : CheckCfg) (cs : List OTy) (c : SCfg) (n : Node) : Prop :=
-  ∀ τ, synth cfg cs n = some τ → ∀ st,
+  ∀ τ, synth cfg cs n = some τ → ScalarT τ → ∀ st, st.colls = cs →
     (visit cfg n st).2.1 = τ ∧ (visit cfg n st).1.kd = τ.kind ∧ EvalOK E P c (visit cfg n st).1 τ.kind
+
+theorem visit_colls (cfg : CheckCfg) (n : Node) (st : CState) : (visit cfg n st).2.2.colls = st.colls :=
+  (visit_spec cfg n st).1
 
 theorem toOption'_some {r : Rule} {τ : OTy} (h : Except.toOption' r = some τ) : r = .ok τ := by
   cases r with
@@ -237,7 +240,7 @@ theorem orFail_ok (τ : OTy) (loc : Loc) (st : CState) : orFail (.ok τ) loc st 
 theorem frag_unary (cfg : CheckCfg) (cs : List OTy) (c : SCfg) (m : Meta) (op : String) (x : Node)
     (hop : fragUnary op = true) (hsc : scalarTyped cfg cs (.unary m op x) = true) (ih : FragSpec E P cfg cs c x) :
     FragSpec E P cfg cs c (.unary m op x) := by
-  intro τ hs st
+  intro τ hs _ st hst
   simp only [scalarTyped, Bool.and_eq_true] at hsc
   obtain ⟨hτs, hxs⟩ := hsc
   rw [hs] at hτs
@@ -248,18 +251,19 @@ theorem frag_unary (cfg : CheckCfg) (cs : List OTy) (c : SCfg) (m : Meta) (op : 
     rw [hsx] at hs
     simp only [] at hs
     have hrule := toOption'_some hs
-    obtain ⟨e1, e2, ev⟩ := ih t hsx st
+    -- the type of the operand is scalar
+    have hts0 : ScalarT t := by
+      have : scalarOK (synth cfg cs x) = true := by
+        cases x <;> simp only [scalarTyped, Bool.and_eq_true] at hxs <;> first | exact hxs | exact hxs.1 | exact hxs.1.1 | exact hxs.1.1.1
+      rw [hsx] at this; exact this
+    obtain ⟨e1, e2, ev⟩ := ih t hsx hts0 st hst
     rcases hx : visit cfg x st with ⟨x', t', st1⟩
     rw [hx] at e1 e2 ev
     simp only [] at e1 e2 ev
     subst e1
     simp only [visit, hx, hrule, orFail_ok]
     refine ⟨trivial, setKd_kd _ _, ?_⟩
-    -- the type of the operand is scalar
-    have hts : ScalarT t' := by
-      have : scalarOK (synth cfg cs x) = true := by
-        cases x <;> simp only [scalarTyped, Bool.and_eq_true] at hxs <;> first | exact hxs | exact hxs.1 | exact hxs.1.1 | exact hxs.1.1.1
-      rw [hsx] at this; exact this
+    have hts : ScalarT t' := hts0
     intro ctx hctx s
     have evx := ev ctx hctx s
     show match (eval c ctx (.unary { m with kd := τ.kind } op x') s).1 with
@@ -631,7 +635,7 @@ theorem scalarTyped_self (cfg : CheckCfg) (cs : List OTy) (n : Node) (h : scalar
 theorem frag_binary (hE : E .divzero) (cfg : CheckCfg) (cs : List OTy) (c : SCfg) (m : Meta) (op : String) (l r : Node)
     (hop : fragBinary op = true) (hsc : scalarTyped cfg cs (.binary m op l r) = true)
     (ihl : FragSpec E P cfg cs c l) (ihr : FragSpec E P cfg cs c r) : FragSpec E P cfg cs c (.binary m op l r) := by
-  intro τ hs st
+  intro τ hs _ st hst
   simp only [scalarTyped, Bool.and_eq_true] at hsc
   obtain ⟨⟨_, hlsc⟩, hrsc⟩ := hsc
   simp only [synth] at hs
@@ -644,22 +648,25 @@ theorem frag_binary (hE : E .divzero) (cfg : CheckCfg) (cs : List OTy) (c : SCfg
       rw [hsl, hsr] at hs
       simp only [] at hs
       have hrule := toOption'_some hs
-      obtain ⟨e1, k1, ev1⟩ := ihl lt hsl st
+      have hls0 : ScalarT lt := by
+        have := scalarTyped_self cfg cs l hlsc; rw [hsl] at this; exact this
+      have hrs0 : ScalarT rt := by
+        have := scalarTyped_self cfg cs r hrsc; rw [hsr] at this; exact this
+      obtain ⟨e1, k1, ev1⟩ := ihl lt hsl hls0 st hst
+      have hst1 := visit_colls cfg l st
       rcases hl : visit cfg l st with ⟨l', lt', st1⟩
-      rw [hl] at e1 k1 ev1
-      simp only [] at e1 k1 ev1
+      rw [hl] at e1 k1 ev1 hst1
+      simp only [] at e1 k1 ev1 hst1
       subst e1
-      obtain ⟨e2, k2, ev2⟩ := ihr rt hsr st1
+      obtain ⟨e2, k2, ev2⟩ := ihr rt hsr hrs0 st1 (hst1.trans hst)
       rcases hr : visit cfg r st1 with ⟨r', rt', st2⟩
       rw [hr] at e2 k2 ev2
       simp only [] at e2 k2 ev2
       subst e2
       simp only [visit, hl, hr, hrule, orFail_ok]
       refine ⟨trivial, setKd_kd _ _, ?_⟩
-      have hls : ScalarT lt' := by
-        have := scalarTyped_self cfg cs l hlsc; rw [hsl] at this; exact this
-      have hrs : ScalarT rt' := by
-        have := scalarTyped_self cfg cs r hrsc; rw [hsr] at this; exact this
+      have hls : ScalarT lt' := hls0
+      have hrs : ScalarT rt' := hrs0
       exact binary_rule_sound hE c cfg.dt { m with kd := τ.kind } op l' r' lt' rt' τ hop hls hrs hrule k1 k2 ev1 ev2
 
 theorem assignable_scalar_kind {x y : Ty} (hx : ScalarT (some x)) (hy : ScalarT (some y))
@@ -685,7 +692,7 @@ theorem frag_cond (cfg : CheckCfg) (cs : List OTy) (c : SCfg) (m : Meta) (cn a b
     (hsc : scalarTyped cfg cs (.cond m cn a b) = true)
     (ihc : FragSpec E P cfg cs c cn) (iha : FragSpec E P cfg cs c a) (ihb : FragSpec E P cfg cs c b) :
     FragSpec E P cfg cs c (.cond m cn a b) := by
-  intro τ hs st
+  intro τ hs _ st hst
   simp only [scalarTyped, Bool.and_eq_true] at hsc
   obtain ⟨⟨⟨hτs, hcsc⟩, hasc⟩, hbsc⟩ := hsc
   rw [hs] at hτs
@@ -705,17 +712,25 @@ theorem frag_cond (cfg : CheckCfg) (cs : List OTy) (c : SCfg) (m : Meta) (cn a b
         | some t2 =>
           rw [hsa, hsb] at hs
           simp only [Option.some.injEq] at hs
-          obtain ⟨e0, _, ev0⟩ := ihc ct hsc' st
+          have hcs0 : ScalarT ct := by
+            have := scalarTyped_self cfg cs cn hcsc; rw [hsc'] at this; exact this
+          have h1s0 : ScalarT t1 := by
+            have := scalarTyped_self cfg cs a hasc; rw [hsa] at this; exact this
+          have h2s0 : ScalarT t2 := by
+            have := scalarTyped_self cfg cs b hbsc; rw [hsb] at this; exact this
+          obtain ⟨e0, _, ev0⟩ := ihc ct hsc' hcs0 st hst
+          have hst1 := visit_colls cfg cn st
           rcases hcv : visit cfg cn st with ⟨cn', ct', st1⟩
-          rw [hcv] at e0 ev0
-          simp only [] at e0 ev0
+          rw [hcv] at e0 ev0 hst1
+          simp only [] at e0 ev0 hst1
           subst e0
-          obtain ⟨e1, _, ev1⟩ := iha t1 hsa st1
+          obtain ⟨e1, _, ev1⟩ := iha t1 hsa h1s0 st1 (hst1.trans hst)
+          have hst2 := visit_colls cfg a st1
           rcases hav : visit cfg a st1 with ⟨a', t1', st2⟩
-          rw [hav] at e1 ev1
-          simp only [] at e1 ev1
+          rw [hav] at e1 ev1 hst2
+          simp only [] at e1 ev1 hst2
           subst e1
-          obtain ⟨e2, _, ev2⟩ := ihb t2 hsb st2
+          obtain ⟨e2, _, ev2⟩ := ihb t2 hsb h2s0 st2 (hst2.trans (hst1.trans hst))
           rcases hbv : visit cfg b st2 with ⟨b', t2', st3⟩
           rw [hbv] at e2 ev2
           simp only [] at e2 ev2
@@ -724,12 +739,9 @@ theorem frag_cond (cfg : CheckCfg) (cs : List OTy) (c : SCfg) (m : Meta) (cn a b
           rw [hs]
           refine ⟨rfl, setKd_kd _ _, ?_⟩
           -- the kinds of the two branches agree with the kind of the result
-          have hcs : ScalarT ct' := by
-            have := scalarTyped_self cfg cs cn hcsc; rw [hsc'] at this; exact this
-          have h1s : ScalarT t1' := by
-            have := scalarTyped_self cfg cs a hasc; rw [hsa] at this; exact this
-          have h2s : ScalarT t2' := by
-            have := scalarTyped_self cfg cs b hbsc; rw [hsb] at this; exact this
+          have hcs : ScalarT ct' := hcs0
+          have h1s : ScalarT t1' := h1s0
+          have h2s : ScalarT t2' := h2s0
           obtain ⟨x, rfl⟩ := scalar_some h1s
           obtain ⟨y, rfl⟩ := scalar_some h2s
           have hkinds : τ.kind = OTy.kind (some x) ∧ τ.kind = OTy.kind (some y) := by
@@ -769,7 +781,7 @@ theorem frag_cond (cfg : CheckCfg) (cs : List OTy) (c : SCfg) (m : Meta) (cn a b
 
 theorem frag_ident (cfg : CheckCfg) (cs : List OTy) (c : SCfg) (henv : EnvConforms cfg c.env) (m : Meta) (name : String)
     (ns : Bool) (hsc : scalarTyped cfg cs (.ident m name ns) = true) : FragSpec E P cfg cs c (.ident m name ns) := by
-  intro τ hs st
+  intro τ hs _ st _
   simp only [scalarTyped] at hsc
   rw [hs] at hsc
   simp only [synth] at hs
@@ -788,25 +800,25 @@ theorem frag_ident (cfg : CheckCfg) (cs : List OTy) (c : SCfg) (henv : EnvConfor
 theorem frag_sound (hE : E .divzero) (cfg : CheckCfg) (cs : List OTy) (c : SCfg) (henv : EnvConforms cfg c.env) :
     ∀ n : Node, inFrag n = true → scalarTyped cfg cs n = true → FragSpec E P cfg cs c n
   | .bool m b, _, _ => by
-    intro τ hs st
+    intro τ hs _ st _
     simp only [synth, Option.some.injEq] at hs
     subst hs
     simp only [visit]
     exact ⟨trivial, setKd_kd _ _, fun ctx _ s => ⟨b, rfl⟩⟩
   | .str m x, _, _ => by
-    intro τ hs st
+    intro τ hs _ st _
     simp only [synth, Option.some.injEq] at hs
     subst hs
     simp only [visit]
     exact ⟨trivial, setKd_kd _ _, fun ctx _ s => ⟨x, rfl⟩⟩
   | .int m v, _, _ => by
-    intro τ hs st
+    intro τ hs _ st _
     simp only [synth, Option.some.injEq] at hs
     subst hs
     simp only [visit]
     exact ⟨trivial, setKd_kd _ _, fun ctx _ s => ⟨_, rfl⟩⟩
   | .float m x, _, _ => by
-    intro τ hs st
+    intro τ hs _ st _
     simp only [synth, Option.some.injEq] at hs
     subst hs
     simp only [visit]
